@@ -220,7 +220,7 @@ def _wordish(c):
 
 def _may_glue(a, b):
     """no separator only where the junction cannot be misread by any Lua lexer: not between two
-    word-like bytes (`0then` is a malformed numeral in Lua although picotool splits it)"""
+    word-like bytes (`0end` is a malformed numeral in Lua although picotool splits it; Lua 5.1 rejects `0then` too)"""
     if _wordish(a[1][-1]) and _wordish(b[1][0]):
         return False
     return pgen.can_glue(a, b)
